@@ -47,6 +47,8 @@ impl StatementBatch {
                     if c.on.is_none() || &err.ecode == c.on.as_ref().unwrap() {
                         task.set_data_with(|data| data.set(consts::IS_CATCH_PROCESSED, true));
                         task.set_state(TaskState::Running);
+                        // no task event reports the revived state: write the row now
+                        task.persist();
 
                         let children = task.node().children_in(NodeOutputKind::Catch, c.on.clone());
 
